@@ -423,7 +423,9 @@ def write_evidence(prop, tier, seed, ix, units, functions, n_obl, n_proved, by_b
               "(abstracted / uninterpreted / real) as stated in DESIGN 2.4",
               "classes as written (no subclass overrides, no monkey patching)"],
           "wall_s": round(wall, 2), "violations": len(violations)}
-    with open(os.path.join(ROOT, "evidence", prop + ".json"), "w") as f:
+    evdir = os.environ.get("VERIF_EVIDENCE_DIR") or os.path.join(ROOT, "evidence")     # (seeded-change runs write elsewhere)
+    os.makedirs(evdir, exist_ok=True)
+    with open(os.path.join(evdir, prop + ".json"), "w") as f:
         json.dump(ev, f, indent=1, default=str)
 
 
